@@ -261,7 +261,10 @@ func verifCheckLog(d *verifDouble, logStart int) {
 			}
 			for _, op := range ops {
 				if a.name == op && a.bucket == e.bucket && (e.key == "" || a.key == e.key) {
-					covered = true
+					// a copy must be authorized with the source it actually reads
+					if e.srcBucket == "" || (a.srcBucket == e.srcBucket && a.srcKey == e.srcKey) {
+						covered = true
+					}
 				}
 			}
 		}
@@ -354,6 +357,9 @@ func verifSync() {
 		}
 		if len(c.Keys) > 0 {
 			e.key = c.Keys[len(c.Keys)-1]
+		}
+		if len(c.Buckets) == 2 && len(c.Keys) == 2 {
+			e.srcBucket, e.srcKey = c.Buckets[0], c.Keys[0] // the copy source the storage reads
 		}
 		verifLog = append(verifLog, e)
 	}
